@@ -61,6 +61,34 @@ namespace
       }
    }
 
+   // the same rule started the way a look-ahead or a disabled section runs it: apply_mode::nothing (the grammar has no actions,
+   // the language must not depend on the mode), rewind_mode::required, lazy tracking
+   template< typename Rule >
+   int run_one_disabled( const char* b, const char* e )
+   {
+      pegtl::memory_input< pegtl::tracking_mode::lazy > in( b, e, "c20" );
+      try {
+         return pegtl::parse< pegtl::seq< Rule, pegtl::eof >, pegtl::nothing, pegtl::normal, pegtl::apply_mode::nothing, pegtl::rewind_mode::required >( in ) ? 1 : 0;
+      }
+      catch( const pegtl::parse_error& ) {
+         return 2;
+      }
+      catch( ... ) {
+         return 3;
+      }
+   }
+
+   int run_rule_disabled( const int r, const char* b, const char* e )
+   {
+      switch( r ) {
+         case R_URI: return run_one_disabled< pegtl::uri::URI >( b, e );
+         case R_REF: return run_one_disabled< pegtl::uri::URI_reference >( b, e );
+         case R_ABS: return run_one_disabled< pegtl::uri::absolute_URI >( b, e );
+         case R_V4: return run_one_disabled< pegtl::uri::IPv4address >( b, e );
+         default: return run_one_disabled< pegtl::uri::IPv6address >( b, e );
+      }
+   }
+
    int run_rule( const int r, const char* b, const char* e )
    {
       switch( r ) {
@@ -221,7 +249,7 @@ namespace
 
    // ------------------------------------------------------------------ cells
    long cells[ NR ][ 2 ][ NG ][ NH ];
-   long parse_error_rejects[ NR ], overreads[ NR ], exact_runs[ NR ];
+   long parse_error_rejects[ NR ], overreads[ NR ], exact_runs[ NR ], disabled_runs[ NR ];
    long selfcheck_pton = 0, selfcheck_deriv = 0, too_long = 0;
    std::size_t samples_per_gen[ NG ];
 
@@ -479,6 +507,13 @@ namespace
             if( got != a ) V.violation( "C20", std::string( "C20|" ) + RN[ r ] + "|result-depends-on-bytes-behind-end", std::string( RN[ r ] ) + " on '" + verif::show( s ) + "': result " + std::to_string( a ) + " with digits behind the end, " + std::to_string( got ) + " on the exact-size block, window hook silent", replay_json( r, s ) );
          }
          V.evaluations += 2;
+         if( !H.fired ) {
+            // third run: actions disabled from the top, lazy tracking; accept / reject must be the same
+            const int dis = run_rule_disabled( r, B.exact[ n ].begin(), B.exact[ n ].end() );
+            ++V.evaluations;
+            ++disabled_runs[ r ];
+            if( ( dis == 1 ) != ( got == 1 ) || dis == 3 ) V.violation( "C20", std::string( "C20|" ) + RN[ r ] + "|result-depends-on-apply-mode", std::string( RN[ r ] ) + " on '" + verif::show( s ) + "': result " + std::to_string( got ) + " with the default parse(), " + std::to_string( dis ) + " with apply_mode::nothing, rewind_mode::required and lazy tracking; RFC 3986 " + ( want ? "derives it" : "does not derive it" ), replay_json( r, s ) );
+         }
          if( got == 2 ) ++parse_error_rejects[ r ];
          if( got == 3 ) {
             V.violation( "C20", std::string( "C20|" ) + RN[ r ] + "|foreign-exception", std::string( RN[ r ] ) + " on '" + verif::show( s ) + "' threw something that is not a tao::pegtl::parse_error", replay_json( r, s ) );
@@ -528,6 +563,7 @@ namespace
          if( parse_error_rejects[ r ] ) V.count( std::string( "reject-by-parse_error|" ) + RN[ r ], parse_error_rejects[ r ] );
          if( overreads[ r ] ) V.count( std::string( "left-window|" ) + RN[ r ], overreads[ r ] );
          if( exact_runs[ r ] ) V.count( std::string( "exact-size-runs|" ) + RN[ r ], exact_runs[ r ] );
+         if( disabled_runs[ r ] ) V.count( std::string( "runs-with-apply_mode-nothing-and-lazy-tracking|" ) + RN[ r ], disabled_runs[ r ] );
       }
       if( selfcheck_pton ) V.count( "selfcheck|inet_pton", selfcheck_pton );
       if( selfcheck_deriv ) V.count( "selfcheck|rfc-derivation", selfcheck_deriv );
